@@ -593,3 +593,76 @@ for _p in proofs_mr:
     _p.own_config = True
     _p.contracts = contracts_mr
 proofs += proofs_mr
+
+
+# ---------------------------------------------------------------------------------------------
+# MultiSpanProcessor::OnEnd: "with several processors each ... is notified exactly once": bounded stand-in over the linked list of processors (0..3
+# nodes, everything inlined; dfcc has no shape predicate for an unbounded list): every processor, in order, gets the recordable made for it released
+# from the multi recordable exactly once and, if there is one, is notified with exactly that recordable, once.
+TU_MSPE = ("tu_multi_span_processor", '#include "%s/sdk/include/opentelemetry/sdk/trace/multi_span_processor.h"\n' % R.core.REPO)
+MSPE_PRE = r"""
+unsigned long g_rel_calls, g_end_calls, g_deleted, g_rel_proc[4], g_rel_h[4], g_end_proc[4], g_end_h[4], g_rel_mr;
+static void xc_havoc_ghosts(void) { g_rel_calls = g_end_calls = g_deleted = g_rel_mr = 0; }
+static xc_opaque *xc_mr_Release(const xc_opaque *mr, const xc_opaque *proc) { unsigned long id; unsigned long i = g_rel_calls < 3 ? g_rel_calls : 3; g_rel_mr = (unsigned long)mr; g_rel_proc[i] = (unsigned long)proc; g_rel_h[i] = id; g_rel_calls++; return (xc_opaque *)id; }
+static void xc_proc_OnEnd(const xc_opaque *proc, const xc_opaque *r) { unsigned long i = g_end_calls < 3 ? g_end_calls : 3; g_end_proc[i] = (unsigned long)proc; g_end_h[i] = (unsigned long)r; g_end_calls++; }
+static void xc_delete_mr(const xc_opaque *mr) { g_deleted++; }
+"""
+
+
+def _mspe_types(em, base, targs, name):
+    if base == "std::unique_ptr" and targs and targs[0].strip().split("::")[-1] in ("SpanProcessor", "Recordable", "MultiRecordable"):
+        return common.CT("xc_opaque", 1)
+    return None
+
+
+def _configure_mspe(cfg):
+    common.sdk_trace_boundary(cfg)
+    common.chrono_boundary(cfg)
+    cfg.type_handlers.insert(0, _mspe_types)
+    for r in ("sdk::trace::SpanProcessor", "sdk::trace::Recordable", "sdk::trace::MultiRecordable"):
+        cfg.type_map[r] = "xc_opaque"
+    unp = lambda r: (r["node"] if isinstance(r, dict) and r.get("xc_is_ptr") else r)
+    cfg.ext_methods["std::unique_ptr::get"] = lambda em, recv, args, n: recv
+    cfg.ext_methods["std::unique_ptr::release"] = lambda em, recv, args, n: recv
+    cfg.ext_methods["std::unique_ptr::operator->"] = lambda em, recv, args, n: recv
+    for k in ("std::unique_ptr::operator!=", "std::unique_ptr::operator=="):
+        cfg.ext_methods[k] = (lambda o: (lambda em, recv, args, n: "(%s %s NULL)" % (recv, o)))(k[-2:])
+    cfg.ext_q["std::operator!="] = lambda em, node, recv, args: "(%s != NULL)" % em.expr(args[0])
+    cfg.ext_q["std::operator=="] = lambda em, node, recv, args: "(%s == NULL)" % em.expr(args[0])
+    cfg.ctor_ext["std::unique_ptr"] = lambda em, node, args: (em.expr(args[0]) if args else "NULL")
+    cfg.ext_q["MultiRecordable::ReleaseRecordable"] = lambda em, node, recv, args: "xc_mr_Release(%s, %s)" % (em.expr(unp(recv)), em.addr_of(args[0]))
+    cfg.ext_q["SpanProcessor::OnEnd"] = lambda em, node, recv, args: "xc_proc_OnEnd(%s, %s)" % (em.expr(unp(recv)), em.expr(args[0]))
+    cfg.ext["delete"] = lambda em, n: "xc_delete_mr(%s)" % em.expr(n["inner"][0])
+
+
+H_MSPE = r"""
+void h_MultiSpanProcessor_OnEnd_bounded(void)
+{
+  xc_havoc_ghosts();
+  unsigned long n; __CPROVER_assume(n <= 3);
+  ProcessorNode nodes[3]; MultiSpanProcessor msp; xc_opaque *span = (xc_opaque *)77;
+  for (unsigned long i = 0; i < 3; i++) { nodes[i].value_ = (xc_opaque *)(100 + i); nodes[i].next_ = (i + 1 < n) ? &nodes[i + 1] : NULL; nodes[i].prev_ = i ? &nodes[i - 1] : NULL; }
+  msp.head_ = n ? &nodes[0] : NULL; msp.tail_ = n ? &nodes[n - 1] : NULL; msp.count_ = n;
+  MultiSpanProcessor_OnEnd(&msp, &span);
+  __CPROVER_assert(g_rel_calls == n && (n == 0 || g_rel_mr == 77), "every processor's recordable is released from the span's multi recordable exactly once");
+  unsigned long e = 0;
+  for (unsigned long i = 0; i < 3; i++) if (i < n)
+  {
+    __CPROVER_assert(g_rel_proc[i] == 100 + i, "... in registration order, for that processor");
+    if (g_rel_h[i] != 0) { __CPROVER_assert(e < g_end_calls && g_end_proc[e] == 100 + i && g_end_h[e] == g_rel_h[i], "a processor is notified with the recordable made for it"); e++; }
+  }
+  __CPROVER_assert(g_end_calls == e, "nobody is notified twice or without a recordable");
+  __CPROVER_assert(g_deleted == 1, "the multi recordable is destroyed once");
+  __CPROVER_assert(0, "XC_CANARY end of harness reachable");
+}
+"""
+_pmspe = Proof("MultiSpanProcessor_OnEnd_bounded", [("MultiSpanProcessor::OnEnd", 1)], harness=H_MSPE, loop_contracts=False, unwind=5, level="bounded", timeout=300,
+               bound_note="0..3 processors in the list, arbitrary (possibly missing) per-processor recordables; everything inlined", desc="fan-out of OnEnd: every processor notified exactly once with its own recordable")
+_pmspe.tu = TU_MSPE
+_pmspe.pre_c = MSPE_PRE
+_pmspe.post_struct_c = ""
+_pmspe.spec_headers = ("xc_trace_boundary.h",)
+_pmspe.force_records = ()
+_pmspe.configure = _configure_mspe
+_pmspe.own_config = True
+proofs.append(_pmspe)
